@@ -20,6 +20,12 @@ RULE = ("generated programs (proggen: tabs, CRLF, non-ASCII identifiers and text
         "non-ASCII character, a string-form usage or a one-line fixture; distinct by feature set")
 
 
+WITNESSES = [
+    "import pytest\n\n@pytest.mark.usefixtures(\"\"\"\nfoo\"\"\")\ndef test_a():\n    pass\n",                       # C15-multiline-string-span
+    "import pytest\n\n@pytest.fixture\ndef \\\n    foo():\n    return 1\n\n@pytest.fixture\ndef\te():\n    return 2\n",     # C15-def-name-search
+]
+
+
 def u16(line_text, byte_col):
     return pyspec.utf16_col(line_text, byte_col)
 
@@ -197,7 +203,8 @@ def run(tier, seed):
     nstdio = 40 if tier == "quick" else 600
     cases = core.Cases(); r.last_cases = cases
     corpus_cases(cases, PROP)
-    progs = []
+    # the witnesses of the recorded findings go through the same oracle as the generated programs
+    progs = [("wit%d" % i, "test_gen.py", t, {"witness"}) for i, t in enumerate(WITNESSES)]
     for i in range(n):
         src = proggen.gen_program(r.rng)
         body_refs = r.rng.random() < 0.5
